@@ -1110,6 +1110,9 @@ class BackendZ3(Backend):
             if k == z3.Z3_APP_AST and z3.Z3_is_numeral_ast(ctx_ref, ast):
                 return z3.FPNumRef(ast, self._context)
             return z3.FPRef(ast, self._context)
+        if sk == z3.Z3_SEQ_SORT:
+            # a plain ExprRef cannot be compared with a Python str (the blocking clause of a multi-value eval)
+            return z3.SeqRef(ast, self._context)
         return z3.ExprRef(ast, self._context)
 
     @condom
